@@ -49,4 +49,44 @@ pub(crate) mod verif_proofs {
         let a = any_action();
         a.sample_limit(&mut AnyRng);
     }
+
+    /// [C04.field] each sampler reads ITS distribution: with three distinguishable constant distributions (the
+    /// `low == high` path of the real Dist::sample, which draws nothing) the result is the clamped, rounded constant
+    /// of the right field, for every finite non-negative constant and every action kind / flag / limit presence.
+    /// stands for the `low == high` path of Dist::dist_sample (the real one drags every rand_distr sampler into the
+    /// CBMC model, which then runs out of memory)
+    fn const_dist_sample<R: RngCore>(d: Dist, _rng: &mut R) -> f64 {
+        match d.dist {
+            crate::dist::DistType::Uniform { low, .. } => low,
+            _ => 0.0,
+        }
+    }
+
+    #[kani::proof]
+    #[kani::stub(Dist::dist_sample, const_dist_sample)]
+    pub(crate) fn k_sample_fields() {
+        let cd = |x: f64| Dist { dist: crate::dist::DistType::Uniform { low: x, high: x }, start: 0.0, max: 0.0 };
+        let (a, b, c): (f64, f64, f64) = (kani::any(), kani::any(), kani::any());
+        kani::assume(a.is_finite() && a >= 0.0 && b.is_finite() && b >= 0.0 && c.is_finite() && c >= 0.0);
+        let has_lim: bool = kani::any();
+        let lim = if has_lim { Some(cd(c)) } else { None };
+        let kind: u8 = kani::any();
+        let act = match kind {
+            0 => Action::Cancel { timer: Timer::All },
+            1 => Action::SendPadding { bypass: kani::any(), replace: kani::any(), timeout: cd(a), limit: lim },
+            2 => Action::BlockOutgoing { bypass: kani::any(), replace: kani::any(), timeout: cd(a), duration: cd(b), limit: lim },
+            _ => Action::UpdateTimer { replace: kani::any(), duration: cd(b), limit: lim },
+        };
+        let day = 86_400_000_000.0f64;
+        let t = act.sample_timeout(&mut AnyRng);
+        let d = act.sample_duration(&mut AnyRng);
+        let l = act.sample_limit(&mut AnyRng);
+        let want_t = if kind == 1 || kind == 2 { a.min(day).round() as u64 } else { 0 };
+        let want_d = if kind == 2 || kind >= 3 { b.min(day).round() as u64 } else { 0 };
+        let want_l = if kind != 0 && has_lim { c.round() as u64 } else { u64::MAX };
+        assert!(t == want_t, "[C04.field] the timeout is sampled from the action's timeout distribution");
+        assert!(d == want_d, "[C04.field] the duration is sampled from the action's duration distribution");
+        assert!(l == want_l, "[C07.field] the limit is sampled from the action's limit distribution");
+        kani::cover!(kind == 2 && t != d, "distinguishable");
+    }
 }
